@@ -157,7 +157,7 @@ def worker_main(args) -> int:
             pass
         logging.basicConfig(level=logging.DEBUG, stream=open(os.devnull, "w"))
         conf.append("trace-logging")
-    if args.shard % 4 == 2 and getattr(mod, "TYPECHECK_OK", False):
+    if args.shard % 4 == 2 and (getattr(mod, "TYPECHECK_OK", False) or os.environ.get("VERIF_FORCE_TYPECHECK")):  # (the variable: development only)
         from pyoak import config as _cfg
 
         _cfg.RUNTIME_TYPE_CHECK = True
